@@ -642,7 +642,11 @@ PROPS["C05"] = dict(
     level_text="proved for all inputs: a refused sew publishes nothing, and the topology clause -- on every store a 3D sew / unsew of "
                "dimension 1, 2, 3 that terminates normally changes images and removal flags exactly as the link / unlink does "
                "(C05_*_topology, Map3/SewTopo3.v: data-only prefix ; topology-determined link, walks included ; data-only suffix). "
-               "Data clauses per observation: the 3D sews/unsews are transcribed in Gallina (Map3/Ops3.v) and compared "
+               "Proved as well: the data clause for coordinates through the 2-sew and the 2-unsew (regenerated from "
+               "dim3/sews/two.rs) in their three shapes -- C05_two_sew_vertex_data_{left,right,both}, "
+               "C05_two_unsew_vertex_data_{left,right,both} (Map3/SewData3.v: orbit-minimum identifiers, lawful merge / split, "
+               "former identifiers emptied, other slots untouched, on every in-range store). "
+               "Other data clauses per observation: the 3D sews/unsews are transcribed in Gallina (Map3/Ops3.v) and compared "
                "with the implementation; the property is the executable Coq specification Sew3Oracle.oracle_sew3 (topology = the "
                "link's; per cell kind, merged cells carry the merge under the new id, untouched cells keep their value, no value "
                "under a dead id; unsew succeeds on fully embedded meshes) applied to every implementation observation, cells being "
